@@ -1,5 +1,535 @@
 /- Helper lemmas for the mpz object-layer model (Mpir/Model/Mpz.lean). -/
-import MpirProofs.Lemmas.Kernels
+import MpirProofs.Lemmas.MpzKernel
 import Mpir.Model.Mpz
+import Mathlib.Tactic.SplitIfs
 namespace Mpir.Mpz
+open Mpir
+
+/-! ## normalised magnitudes -/
+
+/-- proper limbs, most significant one non-zero -/
+def Norm (d : List Nat) : Prop := Limbs d ∧ d.getLast? ≠ some 0
+
+theorem Norm_nil : Norm [] := ⟨Limbs_nil, by simp⟩
+
+theorem Norm.lower {d : List Nat} (h : Norm d) (hne : d ≠ []) : B ^ (d.length - 1) ≤ val d := by
+  rcases List.eq_nil_or_concat d with h0 | ⟨l, b, rfl⟩
+  · exact absurd h0 hne
+  · have hb : b ≠ 0 := by
+      intro hb; apply h.2; simp [List.concat_eq_append, hb]
+    have hb1 : 1 ≤ b := Nat.pos_of_ne_zero hb
+    simp only [List.concat_eq_append, val_append, List.length_append, List.length_cons,
+      List.length_nil, val_cons, val_nil]
+    have : B ^ l.length * 1 ≤ B ^ l.length * b := Nat.mul_le_mul_left _ hb1
+    simp only [Nat.zero_add, Nat.add_sub_cancel, Nat.mul_zero, Nat.add_zero]
+    omega
+
+theorem Norm.of_lower {d : List Nat} (hl : Limbs d) (h : d = [] ∨ B ^ (d.length - 1) ≤ val d) :
+    Norm d := by
+  refine ⟨hl, ?_⟩
+  rcases List.eq_nil_or_concat d with h0 | ⟨l, b, rfl⟩
+  · simp [h0]
+  · simp only [List.concat_eq_append, List.getLast?_concat, ne_eq, Option.some.injEq]
+    intro hb
+    subst hb
+    rcases h with h | h
+    · simp at h
+    · have hll : Limbs l := (Limbs_append.mp (by simpa [List.concat_eq_append] using hl)).1
+      have := val_lt l hll
+      simp only [List.concat_eq_append, val_append, List.length_append, List.length_cons,
+        List.length_nil, val_cons, val_nil, Nat.zero_add, Nat.add_sub_cancel, Nat.mul_zero,
+        Nat.add_zero] at h
+      omega
+
+theorem Norm.upper {d : List Nat} (h : Norm d) : val d < B ^ d.length := val_lt d h.1
+
+theorem Norm.pos {d : List Nat} (h : Norm d) (hne : d ≠ []) : 0 < val d :=
+  Nat.lt_of_lt_of_le (pow_pos B_pos _) (h.lower hne)
+
+theorem val_replicate_zero (k : Nat) : val (List.replicate k 0) = 0 := by
+  induction k with
+  | zero => rfl
+  | succ k ih => simp [List.replicate_succ, ih]
+
+theorem Limbs_replicate_zero (k : Nat) : Limbs (List.replicate k 0) := by
+  intro x hx; rw [List.eq_of_mem_replicate hx]; exact B_pos
+
+theorem dropWhile_zero_spec (r : List Nat) :
+    ∃ k, r = List.replicate k 0 ++ r.dropWhile (· == 0) := by
+  induction r with
+  | nil => exact ⟨0, rfl⟩
+  | cons x xs ih =>
+    by_cases hx : x = 0
+    · obtain ⟨k, hk⟩ := ih
+      refine ⟨k + 1, ?_⟩
+      subst hx
+      simp only [List.dropWhile_cons, beq_self_eq_true, if_true, List.replicate_succ,
+        List.cons_append]
+      rw [← hk]
+    · exact ⟨0, by simp [hx]⟩
+
+theorem normalize_spec (l : List Nat) : ∃ k, l = normalize l ++ List.replicate k 0 := by
+  obtain ⟨k, hk⟩ := dropWhile_zero_spec l.reverse
+  refine ⟨k, ?_⟩
+  have := congrArg List.reverse hk
+  simpa [normalize] using this
+
+theorem val_normalize (l : List Nat) : val (normalize l) = val l := by
+  obtain ⟨k, hk⟩ := normalize_spec l
+  conv_rhs => rw [hk]
+  rw [val_append, val_replicate_zero]; simp
+
+theorem normalize_length_le (l : List Nat) : (normalize l).length ≤ l.length := by
+  obtain ⟨k, hk⟩ := normalize_spec l
+  conv_rhs => rw [hk]
+  simp
+
+theorem Norm_normalize {l : List Nat} (h : Limbs l) : Norm (normalize l) := by
+  constructor
+  · obtain ⟨k, hk⟩ := normalize_spec l
+    rw [hk] at h
+    exact (Limbs_append.mp h).1
+  · unfold normalize
+    rw [List.getLast?_reverse]
+    have := List.head?_dropWhile_not (· == 0) l.reverse
+    intro h0
+    rw [h0] at this
+    simp at this
+
+/-! ## objects -/
+
+theorem WF_iff (x : Mpz) :
+    WF x ↔ 1 ≤ x.alloc ∧ x.size.natAbs ≤ x.alloc ∧ x.d.length = x.size.natAbs ∧ Norm x.d := by
+  unfold WF Norm; tauto
+
+/-- signed value of a magnitude under a size field -/
+def sval (s : Int) (d : List Nat) : Int := if s < 0 then -(val d : Int) else (val d : Int)
+
+theorem toInt_eq (x : Mpz) : toInt x = sval x.size x.d := rfl
+
+theorem natAbs_sgn (b : Bool) (n : Nat) : (sgn b n).natAbs = n := by
+  cases b <;> simp [sgn]
+
+theorem realloc_alloc (m : Mpz) (n : Nat) : (realloc m n).alloc = max n 1 := by
+  unfold realloc; dsimp only; split <;> rfl
+
+theorem grow_alloc (w : Mpz) (n : Nat) : n ≤ (grow w n).alloc ∧ w.alloc ≤ (grow w n).alloc := by
+  unfold grow
+  split
+  · rw [realloc_alloc]; omega
+  · omega
+
+/-- the object `{alloc, ±n, d}` built by every function: well formed, value `±val d`. -/
+theorem mk_spec (a n : Nat) (neg : Bool) (d : List Nat) (hn : d.length = n) (hd : Norm d)
+    (ha : n ≤ a) (ha1 : 1 ≤ a) :
+    WF ⟨a, sgn neg n, d⟩ ∧
+    toInt ⟨a, sgn neg n, d⟩ = if neg then -(val d : Int) else (val d : Int) := by
+  refine ⟨(WF_iff _).mpr ⟨ha1, by simpa [natAbs_sgn] using ha, by simp [natAbs_sgn, hn], hd⟩, ?_⟩
+  unfold toInt sgn
+  cases neg
+  · simp
+  · simp only [if_true]
+    by_cases h0 : n = 0
+    · subst h0
+      have : d = [] := List.length_eq_zero_iff.mp hn
+      subst this; simp
+    · have : -(n : Int) < 0 := by omega
+      rw [if_pos this]
+
+theorem diffSign_iff (a b : Int) : diffSign a b = true ↔ (a < 0 ↔ ¬ b < 0) := by
+  unfold diffSign
+  by_cases ha : a < 0 <;> by_cases hb : b < 0 <;> simp [ha, hb]
+
+/-- `(r ++ [c]).take (n + [c ≠ 0])`: the buffer after `wp[n] = c; size = n + (c != 0)`. -/
+theorem take_carry (r : List Nat) (c n : Nat) (hn : r.length = n) (hl : Limbs r) (hc : c < B)
+    (hlow : n = 0 ∨ B ^ (n - 1) ≤ val r + B ^ n * c) :
+    val ((r ++ [c]).take (n + (if c != 0 then 1 else 0))) = val r + B ^ n * c ∧
+    ((r ++ [c]).take (n + (if c != 0 then 1 else 0))).length = n + (if c != 0 then 1 else 0) ∧
+    Norm ((r ++ [c]).take (n + (if c != 0 then 1 else 0))) := by
+  by_cases h0 : c = 0
+  · subst h0
+    simp only [bne_self_eq_false, Bool.false_eq_true, if_false, Nat.add_zero, Nat.mul_zero]
+    rw [List.take_left' hn]
+    refine ⟨rfl, hn, Norm.of_lower hl ?_⟩
+    rcases hlow with h | h
+    · left; exact List.length_eq_zero_iff.mp (hn.trans h)
+    · right; rw [hn]; simpa using h
+  · have hb : (c != 0) = true := by simp [h0]
+    simp only [hb, if_true]
+    rw [List.take_of_length_le (by simp [hn])]
+    refine ⟨by rw [val_append, hn]; simp, by simp [hn], ?_, ?_⟩
+    · exact Limbs_append.mpr ⟨hl, Limbs_cons.mpr ⟨hc, Limbs_nil⟩⟩
+    · simp [h0]
+
+theorem take_carry' (r : List Nat) (c n : Nat) (hn : r.length = n) (hl : Limbs r) (hc : c ≤ 1)
+    (hlow : n = 0 ∨ B ^ (n - 1) ≤ val r + B ^ n * c) :
+    val ((r ++ [c]).take (n + c)) = val r + B ^ n * c ∧
+    ((r ++ [c]).take (n + c)).length = n + c ∧ Norm ((r ++ [c]).take (n + c)) := by
+  have h := take_carry r c n hn hl (by have := B_eq; omega) hlow
+  have e : (if c != 0 then 1 else 0) = c := by
+    rcases Nat.le_one_iff_eq_zero_or_eq_one.mp hc with h | h <;> subst h <;> rfl
+  rw [e] at h; exact h
+
+theorem sval_neg (s : Int) (d : List Nat) (h : d.length = s.natAbs) : sval (-s) d = -sval s d := by
+  unfold sval
+  by_cases h0 : s = 0
+  · subst h0
+    have : d = [] := List.length_eq_zero_iff.mp (by simpa using h)
+    subst this; simp
+  · by_cases h1 : s < 0
+    · have : ¬ (-s < 0) := by omega
+      rw [if_pos h1, if_neg this]; simp
+    · have : -s < 0 := by omega
+      rw [if_neg h1, if_pos this]
+
+/-- no borrow out of a subtraction whose result is non-negative -/
+theorem borrow_zero {r y x P c : Nat} (h : r + y = x + P * c) (hc : c ≤ 1) (hr : r < P) (hle : y ≤ x) :
+    c = 0 ∧ r + y = x := by
+  rcases Nat.le_one_iff_eq_zero_or_eq_one.mp hc with h0 | h0
+  · subst h0; simpa using h
+  · subst h0; omega
+
+/-! ## mpz_add / mpz_sub -/
+
+theorem aorsCore_spec (w u v : Mpz) (us vs : Int) (hu : Norm u.d) (hv : Norm v.d)
+    (hul : u.d.length = us.natAbs) (hvl : v.d.length = vs.natAbs) (hle : vs.natAbs ≤ us.natAbs) :
+    WF (aorsCore w u v us vs) ∧ toInt (aorsCore w u v us vs) = sval us u.d + sval vs v.d := by
+  obtain ⟨ga1, ga2⟩ := grow_alloc w (us.natAbs + 1)
+  unfold aorsCore
+  dsimp only
+  split_ifs with hds hne hcmp
+  · -- signs differ, sizes differ: |u| > |v|
+    have hne' : us.natAbs ≠ vs.natAbs := by simpa using hne
+    obtain ⟨sv, sc, sl, sn⟩ := K.sub_val u.d v.d hu.1 hv.1 (by omega)
+    have hune : u.d ≠ [] := by intro h; rw [h] at hul; simp at hul; omega
+    have hlow := hu.lower hune
+    have hvup := hv.upper
+    have hpow : B ^ v.d.length ≤ B ^ (u.d.length - 1) := Nat.pow_le_pow_right B_pos (by omega)
+    have hrup := val_lt _ sl
+    rw [sn] at hrup
+    obtain ⟨_, sv'⟩ := borrow_zero sv sc hrup (by omega)
+    obtain ⟨wf, ti⟩ := mk_spec (grow w (us.natAbs + 1)).alloc _ (decide (us < 0)) _ rfl
+      (Norm_normalize sl) (by have := normalize_length_le (Mpir.sub u.d v.d).1; omega) (by omega)
+    refine ⟨wf, ?_⟩
+    rw [ti, val_normalize]
+    rw [diffSign_iff] at hds
+    unfold sval
+    by_cases h1 : us < 0 <;> by_cases h2 : vs < 0 <;> simp [h1, h2] at hds ⊢ <;> omega
+  · -- signs differ, same size, |u| < |v|
+    have heq : us.natAbs = vs.natAbs := by simpa using hne
+    have hlen : u.d.length = v.d.length := by omega
+    have hlt := (K.cmp_lt_iff u.d v.d hu.1 hv.1 hlen).mp hcmp
+    obtain ⟨sv, sc, sl, sn⟩ := K.sub_n_val v.d u.d hv.1 hu.1 hlen.symm
+    have hrup := val_lt _ sl
+    rw [sn] at hrup
+    obtain ⟨_, sv'⟩ := borrow_zero sv sc hrup (by omega)
+    obtain ⟨wf, ti⟩ := mk_spec (grow w (us.natAbs + 1)).alloc _ (decide (us ≥ 0)) _ rfl
+      (Norm_normalize sl) (by have := normalize_length_le (Mpir.sub_n v.d u.d).1; omega) (by omega)
+    refine ⟨wf, ?_⟩
+    rw [ti, val_normalize]
+    rw [diffSign_iff] at hds
+    unfold sval
+    by_cases h1 : us < 0 <;> by_cases h2 : vs < 0 <;> simp [h1, h2] at hds ⊢ <;> omega
+  · -- signs differ, same size, |u| ≥ |v|
+    have heq : us.natAbs = vs.natAbs := by simpa using hne
+    have hlen : u.d.length = v.d.length := by omega
+    have hge : ¬ val u.d < val v.d := fun h => hcmp ((K.cmp_lt_iff u.d v.d hu.1 hv.1 hlen).mpr h)
+    obtain ⟨sv, sc, sl, sn⟩ := K.sub_n_val u.d v.d hu.1 hv.1 hlen
+    have hrup := val_lt _ sl
+    rw [sn] at hrup
+    obtain ⟨_, sv'⟩ := borrow_zero sv sc hrup (by omega)
+    obtain ⟨wf, ti⟩ := mk_spec (grow w (us.natAbs + 1)).alloc _ (decide (us < 0)) _ rfl
+      (Norm_normalize sl) (by have := normalize_length_le (Mpir.sub_n u.d v.d).1; omega) (by omega)
+    refine ⟨wf, ?_⟩
+    rw [ti, val_normalize]
+    rw [diffSign_iff] at hds
+    unfold sval
+    by_cases h1 : us < 0 <;> by_cases h2 : vs < 0 <;> simp [h1, h2] at hds ⊢ <;> omega
+  · -- same sign: add
+    obtain ⟨av, ac, al, an⟩ := K.add_val u.d v.d hu.1 hv.1 (by omega)
+    have hlow : us.natAbs = 0 ∨ B ^ (us.natAbs - 1) ≤
+        val (Mpir.add u.d v.d).1 + B ^ us.natAbs * (Mpir.add u.d v.d).2 := by
+      by_cases h0 : us.natAbs = 0
+      · left; exact h0
+      · right
+        have hune : u.d ≠ [] := by intro h; rw [h] at hul; simp at hul; omega
+        have := hu.lower hune
+        rw [hul] at this av; omega
+    obtain ⟨tv, tl, tn⟩ := take_carry' _ _ us.natAbs (an.trans hul) al ac hlow
+    obtain ⟨wf, ti⟩ := mk_spec (grow w (us.natAbs + 1)).alloc _ (decide (us < 0)) _ tl tn
+      (by omega) (by omega)
+    refine ⟨wf, ?_⟩
+    rw [hul] at av
+    have key := tv.trans av
+    rw [ti]
+    clear ti tv av hlow
+    have hds' : ¬ (us < 0 ↔ ¬ vs < 0) := fun h => hds ((diffSign_iff us vs).mpr h)
+    unfold sval
+    by_cases h1 : us < 0 <;> by_cases h2 : vs < 0 <;> simp [h1, h2] at hds' ⊢ <;> omega
+
+theorem aors_spec (isSub : Bool) (w u v : Mpz) (hu : WF u) (hv : WF v) :
+    WF (aors isSub w u v) ∧
+    toInt (aors isSub w u v) = toInt u + (if isSub then -toInt v else toInt v) := by
+  obtain ⟨_, _, hul, hun⟩ := (WF_iff u).mp hu
+  obtain ⟨_, _, hvl, hvn⟩ := (WF_iff v).mp hv
+  have hv' : sval (if isSub then -v.size else v.size) v.d = if isSub then -toInt v else toInt v := by
+    cases isSub
+    · simp [toInt_eq]
+    · simp [toInt_eq, sval_neg _ _ hvl]
+  have hvl' : v.d.length = (if isSub = true then -v.size else v.size).natAbs := by
+    cases isSub <;> simp [hvl]
+  unfold aors
+  dsimp only
+  generalize (if isSub = true then -v.size else v.size) = vs' at *
+  by_cases hsw : u.size.natAbs < vs'.natAbs
+  · rw [if_pos hsw]
+    obtain ⟨wf, ti⟩ := aorsCore_spec w v u _ u.size hvn hun hvl' hul (by omega)
+    refine ⟨wf, ?_⟩
+    rw [ti, hv', toInt_eq u]; ring
+  · rw [if_neg hsw]
+    obtain ⟨wf, ti⟩ := aorsCore_spec w u v u.size _ hun hvn hul hvl' (by omega)
+    exact ⟨wf, by rw [ti, hv', toInt_eq u]⟩
+
+/-! ## size adjustment by the top limb: `n -= (wp[n-1] == 0)` -/
+
+theorem topLimb_concat (l : List Nat) (b : Nat) : topLimb (l ++ [b]) = b := by
+  simp [topLimb, List.getLastD_eq_getLast?]
+
+theorem strip_top (r : List Nat) (n : Nat) (hn : r.length = n) (hl : Limbs r)
+    (hlow : n ≤ 1 ∨ B ^ (n - 2) ≤ val r) :
+    val (r.take (n - (if topLimb r == 0 then 1 else 0))) = val r ∧
+    (r.take (n - (if topLimb r == 0 then 1 else 0))).length = n - (if topLimb r == 0 then 1 else 0) ∧
+    Norm (r.take (n - (if topLimb r == 0 then 1 else 0))) := by
+  rcases List.eq_nil_or_concat r with h0 | ⟨l, b, rfl⟩
+  · subst h0; simp at hn; subst hn; simp [Norm_nil]
+  · simp only [List.concat_eq_append] at *
+    have hll : Limbs l := (Limbs_append.mp hl).1
+    have hn' : l.length + 1 = n := by simpa using hn
+    rw [topLimb_concat]
+    by_cases hb : b = 0
+    · subst hb
+      have e : n - 1 = l.length := by omega
+      simp only [beq_self_eq_true, if_true, e]
+      rw [List.take_left' rfl]
+      refine ⟨by simp [val_append], rfl, Norm.of_lower hll ?_⟩
+      by_cases hl0 : l = []
+      · left; exact hl0
+      · right
+        have : l.length ≠ 0 := fun h => hl0 (List.length_eq_zero_iff.mp h)
+        rcases hlow with h | h
+        · omega
+        · have e2 : n - 2 = l.length - 1 := by omega
+          rw [e2] at h
+          simpa [val_append] using h
+    · have hb' : (b == 0) = false := by simp [hb]
+      simp only [hb', Bool.false_eq_true, if_false, Nat.sub_zero]
+      rw [List.take_of_length_le (by simp; omega)]
+      refine ⟨rfl, by simp; omega, hl, by simp [hb]⟩
+
+/-! ## mpz_add_ui / mpz_sub_ui / mpz_ui_sub -/
+
+theorem sgn_false_ite (c : Prop) [Decidable c] :
+    sgn false (if c then 1 else 0) = (if c then 1 else 0 : Int) := by
+  unfold sgn; by_cases h : c <;> simp [h]
+
+theorem single_take (x : Nat) (hx : x < B) :
+    val ([x].take (if x != 0 then 1 else 0)) = x ∧
+    ([x].take (if x != 0 then 1 else 0)).length = (if x != 0 then 1 else 0) ∧
+    Norm ([x].take (if x != 0 then 1 else 0)) := by
+  have h := take_carry [] x 0 rfl Limbs_nil hx (Or.inl rfl)
+  simpa using h
+
+theorem pow_pred_ge {n v : Nat} (hn : 2 ≤ n) (hv : v < B) : B ^ (n - 2) + v ≤ B ^ (n - 1) := by
+  have e : n - 1 = (n - 2) + 1 := by omega
+  rw [e, pow_succ]
+  have : 1 ≤ B ^ (n - 2) := Nat.one_le_pow _ _ B_pos
+  have hB := B_pos
+  nlinarith
+
+/-- a one-limb-or-longer normalised `u` is `≥ v` unless it is the single limb `x < v` -/
+theorem ge_limb {d : List Nat} (hd : Norm d) (hne : d ≠ []) {v : Nat} (hv : v < B)
+    (h : ¬ (d.length = 1 ∧ d.headD 0 < v)) : v ≤ val d := by
+  have hlow := hd.lower hne
+  by_cases h1 : d.length = 1
+  · match d, h1 with
+    | [x], _ => simp at h ⊢; omega
+  · have h2 : 2 ≤ d.length := by
+      have : d.length ≠ 0 := fun h => hne (List.length_eq_zero_iff.mp h)
+      omega
+    have := pow_pred_ge h2 hv
+    have : 1 ≤ B ^ (d.length - 2) := Nat.one_le_pow _ _ B_pos
+    omega
+
+theorem sub_1_strip (d : List Nat) (v : Nat) (hd : Norm d) (hne : d ≠ []) (hv : v < B)
+    (hge : v ≤ val d) :
+    val ((sub_1 d v).1.take (d.length - (if topLimb (sub_1 d v).1 == 0 then 1 else 0))) + v = val d ∧
+    ((sub_1 d v).1.take (d.length - (if topLimb (sub_1 d v).1 == 0 then 1 else 0))).length
+      = d.length - (if topLimb (sub_1 d v).1 == 0 then 1 else 0) ∧
+    Norm ((sub_1 d v).1.take (d.length - (if topLimb (sub_1 d v).1 == 0 then 1 else 0))) := by
+  obtain ⟨sv, sc, sl, sn⟩ := K.sub_1_val d v hd.1 hv hne
+  have hrup := val_lt _ sl
+  rw [sn] at hrup
+  obtain ⟨_, sv'⟩ := borrow_zero sv sc hrup hge
+  have hlow := hd.lower hne
+  obtain ⟨tv, tl, tn⟩ := strip_top (sub_1 d v).1 d.length sn sl (by
+    by_cases h2 : d.length ≤ 1
+    · left; exact h2
+    · right
+      have := pow_pred_ge (by omega : 2 ≤ d.length) hv
+      omega)
+  exact ⟨by rw [tv]; exact sv', tl, tn⟩
+
+theorem aors_ui_spec (isSub : Bool) (w u : Mpz) (vval : Nat) (hu : WF u) (hv : vval < B) :
+    WF (aors_ui isSub w u vval) ∧
+    toInt (aors_ui isSub w u vval) = toInt u + (if isSub then -(vval : Int) else (vval : Int)) := by
+  obtain ⟨_, _, hul, hun⟩ := (WF_iff u).mp hu
+  obtain ⟨ga1, ga2⟩ := grow_alloc w (u.size.natAbs + 1)
+  rw [toInt_eq u]
+  unfold aors_ui
+  dsimp only
+  by_cases h0 : (u.size.natAbs == 0) = true
+  · rw [if_pos h0]
+    have h0' : u.size = 0 := by simpa using h0
+    have hd : u.d = [] := List.length_eq_zero_iff.mp (by rw [hul, h0']; rfl)
+    obtain ⟨tv, tl, tn⟩ := single_take vval hv
+    obtain ⟨wf, ti⟩ := mk_spec (grow w (u.size.natAbs + 1)).alloc _ isSub _ tl tn
+      (by split_ifs <;> omega) (by omega)
+    refine ⟨wf, ?_⟩
+    rw [ti, tv, hd]; simp [sval]
+  rw [if_neg h0]
+  have hn0 : u.size.natAbs ≠ 0 := by simpa using h0
+  have hne : u.d ≠ [] := by intro h; rw [h] at hul; simp at hul; omega
+  by_cases hadd : (if isSub = true then decide (u.size < 0) else decide (u.size ≥ 0)) = true
+  · rw [if_pos hadd]
+    obtain ⟨av, ac, al, an⟩ := K.add_1_val u.d vval hun.1 hv hne
+    have hlow := hun.lower hne
+    rw [hul] at av an hlow
+    obtain ⟨tv, tl, tn⟩ := take_carry' _ _ u.size.natAbs an al ac (Or.inr (by omega))
+    obtain ⟨wf, ti⟩ := mk_spec (grow w (u.size.natAbs + 1)).alloc _ isSub _ tl tn
+      (by omega) (by omega)
+    refine ⟨wf, ?_⟩
+    have key := tv.trans av
+    rw [ti]
+    clear ti tv av
+    unfold sval
+    cases isSub <;> simp at hadd ⊢
+    · have : ¬ u.size < 0 := by omega
+      simp [this]; omega
+    · simp [hadd]; omega
+  rw [if_neg hadd]
+  by_cases hone : (u.size.natAbs == 1 && decide (u.d.headD 0 < vval)) = true
+  · rw [if_pos hone]
+    have ⟨h1, hlt⟩ : u.size.natAbs = 1 ∧ u.d.headD 0 < vval := by simpa using hone
+    have hlen1 : u.d.length = 1 := by omega
+    obtain ⟨x, hx⟩ := List.length_eq_one_iff.mp hlen1
+    simp only [hx, List.headD_cons] at hlt ⊢
+    have hnorm : Norm [vval - x] :=
+      ⟨Limbs_cons.mpr ⟨by omega, Limbs_nil⟩, by simp; omega⟩
+    obtain ⟨wf, ti⟩ := mk_spec (grow w (u.size.natAbs + 1)).alloc 1 isSub [vval - x] rfl hnorm
+      (by omega) (by omega)
+    refine ⟨wf, ?_⟩
+    rw [ti]
+    unfold sval
+    simp only [val_cons, val_nil, Nat.mul_zero, Nat.add_zero]
+    cases isSub
+    · have hs : u.size < 0 := by simpa using hadd
+      simp only [hs, reduceIte, Bool.false_eq_true]; omega
+    · have hs : ¬ u.size < 0 := by simpa using hadd
+      simp only [hs, reduceIte]; omega
+  rw [if_neg hone]
+  have hge : vval ≤ val u.d := ge_limb hun hne hv (by
+    intro ⟨h1, h2⟩; apply hone
+    simp only [Bool.and_eq_true, beq_iff_eq, decide_eq_true_eq]; exact ⟨by omega, h2⟩)
+  obtain ⟨tv, tl, tn⟩ := sub_1_strip u.d vval hun hne hv hge
+  rw [hul] at tv tl tn
+  obtain ⟨wf, ti⟩ := mk_spec (grow w (u.size.natAbs + 1)).alloc _ (!isSub) _ tl tn
+    (by split_ifs <;> omega) (by omega)
+  refine ⟨wf, ?_⟩
+  rw [ti]
+  clear ti
+  unfold sval
+  cases isSub
+  · have hs : u.size < 0 := by simpa using hadd
+    simp only [hs, reduceIte, Bool.not_false, Bool.false_eq_true]; omega
+  · have hs : ¬ u.size < 0 := by simpa using hadd
+    simp only [hs, reduceIte, Bool.not_true, Bool.false_eq_true]; omega
+
+theorem ui_sub_spec (w : Mpz) (uval : Nat) (v : Mpz) (hw : 1 ≤ w.alloc) (hv : WF v) (hu : uval < B) :
+    WF (ui_sub w uval v) ∧ toInt (ui_sub w uval v) = (uval : Int) - toInt v := by
+  obtain ⟨_, _, hvl, hvn⟩ := (WF_iff v).mp hv
+  rw [toInt_eq v]
+  unfold ui_sub
+  dsimp only
+  by_cases hgt : v.size > 1
+  · rw [if_pos hgt]
+    obtain ⟨ga1, ga2⟩ := grow_alloc w v.size.natAbs
+    have hne : v.d ≠ [] := by intro h; rw [h] at hvl; simp at hvl; omega
+    have hge : uval ≤ val v.d := ge_limb hvn hne hu (by intro ⟨h1, _⟩; omega)
+    obtain ⟨tv, tl, tn⟩ := sub_1_strip v.d uval hvn hne hu hge
+    rw [hvl] at tv tl tn
+    obtain ⟨wf, ti⟩ := mk_spec (grow w v.size.natAbs).alloc _ true _ tl tn
+      (by split_ifs <;> omega) (by omega)
+    simp only [sgn, if_true] at wf ti
+    refine ⟨wf, ?_⟩
+    rw [ti]
+    have : ¬ v.size < 0 := by omega
+    unfold sval
+    rw [if_neg this]; omega
+  rw [if_neg hgt]
+  by_cases h1 : (v.size == 1) = true
+  · rw [if_pos h1]
+    have h1' : v.size = 1 := by simpa using h1
+    have hlen1 : v.d.length = 1 := by rw [hvl, h1']; rfl
+    obtain ⟨x, hx⟩ := List.length_eq_one_iff.mp hlen1
+    have hxB : x < B := by have := hvn.1; rw [hx] at this; exact (Limbs_cons.mp this).1
+    have hh : v.d.headD 0 = x := by rw [hx]; rfl
+    have hs : sval v.size v.d = (x : Int) := by rw [hx]; simp [sval, h1']
+    rw [hs, hh]
+    by_cases hge : uval ≥ x
+    · rw [if_pos hge]
+      obtain ⟨tv, tl, tn⟩ := single_take (uval - x) (by omega)
+      obtain ⟨wf, ti⟩ := mk_spec w.alloc _ false _ tl tn (by split_ifs <;> omega) hw
+      rw [sgn_false_ite] at wf ti
+      refine ⟨wf, ?_⟩
+      rw [ti, tv]; simp only [Bool.false_eq_true, if_false]; omega
+    · rw [if_neg hge]
+      have hnorm : Norm [x - uval] := ⟨Limbs_cons.mpr ⟨by omega, Limbs_nil⟩, by simp; omega⟩
+      obtain ⟨wf, ti⟩ := mk_spec w.alloc 1 true [x - uval] rfl hnorm (by omega) hw
+      simp only [sgn, if_true] at wf ti
+      refine ⟨wf, ?_⟩
+      rw [show (-1 : Int) = -((1 : Nat) : Int) from rfl, ti]
+      simp only [val_cons, val_nil, Nat.mul_zero, Nat.add_zero]; omega
+  rw [if_neg h1]
+  have h1' : v.size ≠ 1 := by simpa using h1
+  by_cases h0 : (v.size == 0) = true
+  · rw [if_pos h0]
+    have h0' : v.size = 0 := by simpa using h0
+    have hd : v.d = [] := List.length_eq_zero_iff.mp (by rw [hvl, h0']; rfl)
+    obtain ⟨tv, tl, tn⟩ := single_take uval hu
+    obtain ⟨wf, ti⟩ := mk_spec w.alloc _ false _ tl tn (by split_ifs <;> omega) hw
+    rw [sgn_false_ite] at wf ti
+    refine ⟨wf, ?_⟩
+    rw [ti, tv, hd]; simp [sval]
+  rw [if_neg h0]
+  have h0' : v.size ≠ 0 := by simpa using h0
+  have hneg : v.size < 0 := by omega
+  obtain ⟨ga1, ga2⟩ := grow_alloc w (v.size.natAbs + 1)
+  have hne : v.d ≠ [] := by intro h; rw [h] at hvl; simp at hvl; omega
+  obtain ⟨av, ac, al, an⟩ := K.add_1_val v.d uval hvn.1 hu hne
+  have hlow := hvn.lower hne
+  rw [hvl] at av an hlow
+  obtain ⟨tv, tl, tn⟩ := take_carry (add_1 v.d uval).1 (add_1 v.d uval).2 v.size.natAbs an al
+    (by have := B_eq; omega) (Or.inr (by omega))
+  obtain ⟨wf, ti⟩ := mk_spec (grow w (v.size.natAbs + 1)).alloc _ false _ tl tn
+    (by split_ifs <;> omega) (by omega)
+  have e : ∀ k : Nat, sgn false k = (k : Int) := fun k => rfl
+  rw [e] at wf ti
+  refine ⟨wf, ?_⟩
+  have key := tv.trans av
+  rw [ti]
+  clear ti tv av
+  unfold sval
+  rw [if_pos hneg]
+  simp only [Bool.false_eq_true, if_false]; omega
+
 end Mpir.Mpz
